@@ -8,16 +8,14 @@
   same order; there are 67 of each; and both coincide with the canonical records pinned in /verif (so editing an
   image and its table consistently is caught as well).
 -/
-import Z80.Gen.ZexData
-import Z80.Spec.Zex
+import Z80.Spec.ZexEncode
 import Z80.Spec.ZexCanon
 
 namespace Z80.Props.C17
 open Z80 Z80.Gen Z80.Spec
 
-/-- a Go table entry as (65 record bytes, description) -/
-def encode (c : ZexCase) : List Nat × String := (recordBytes c.mask c.base c.inc c.shift c.crc, stripDots c.desc)
-def normalise (r : List Nat × String) : List Nat × String := (r.1, stripDots r.2)
+abbrev encode := encodeCase
+abbrev normalise := normaliseRec
 
 /-- zexdoc: image records = Go table, in order, byte for byte -/
 theorem C17_doc : (parseImage zexdocImage).map (·.map normalise) = some (zexDocCases.map encode) := by decide +kernel
